@@ -39,11 +39,14 @@ func (b biomesC) Get(i int) int { return int(b.PaletteContainer.Get(i)) }
 func (b biomesC) Set(i, v int)  { b.PaletteContainer.Set(i, level.BiomesState(v)) }
 
 type kind struct {
-	name     string
-	length   int
-	pk       refwire.PalKind
-	fresh    func(def int) cont
-	withData func(data []uint64, pal []int) cont
+	name   string
+	length int
+	pk     refwire.PalKind
+	fresh  func(def int) cont
+	// withData builds a container from a saved pair. The palette is handed over as a typed slice of the given capacity
+	// (>= len(pal)); the returned function is the caller going on with its own slices: it overwrites the palette slice up
+	// to its capacity and the data slice.
+	withData func(data []uint64, pal []int, capacity int) (cont, func(r *vm.Rand))
 	targets  []int // distinct-value counts to sweep through
 }
 
@@ -168,41 +171,52 @@ func runHistory(c *vm.Ctx, r *vm.Rand, k *kind, hi int) {
 		}
 	}
 	c.Eval(vm.HashStr("hist", k.name, fmt.Sprint(hi, c.Shard, c.Seed)), true)
-	usedOther := func() (cont, string) {
-		// a container that was used before with other data of a different width
-		o := k.fresh(r.Intn(k.pk.RegistrySize))
-		w := []int{0, 1, 3, 20, 40, 300}[r.Intn(6)]
-		if w >= k.pk.RegistrySize {
-			w = k.pk.RegistrySize / 2
+	// receivers of the round trips: a fresh container, one with a past of its own, or the container this very history
+	// wrote from one round trip earlier (a client-side container that receives one chunk update after another)
+	var prev cont
+	prevRead, ctRead := false, false
+	receiver := func() (cont, string) {
+		switch r.Intn(3) {
+		case 0:
+			return k.fresh(r.Intn(k.pk.RegistrySize)), "fresh"
+		case 1:
+			if prev != nil {
+				o, d := prev, "earlier-container-of-this-history"
+				if prevRead {
+					d += "(has-read-before)"
+				}
+				prev = nil
+				return o, d
+			}
 		}
-		for j := 0; j < w; j++ {
-			o.Set(r.Intn(k.length), r.Intn(k.pk.RegistrySize))
-		}
-		return o, fmt.Sprintf("used(%d-values)", w)
+		return usedReceiver(c, r, k)
 	}
+	edges := [2]int{k.length - 1, 0}
 	ok := true
 	pan := c.Guard("ops/"+k.name, h.wit, func() {
-		for _, target := range k.targets {
+		for ti, target := range k.targets {
 			if target > k.pk.RegistrySize {
 				break
 			}
 			// round trip just before crossing the boundary
 			if r.Intn(3) == 0 {
 				var nc cont
-				if r.Bool() {
-					o, d := usedOther()
-					nc, ok = wireRoundTrip(c, r, ct, model, h, o, d)
-				} else {
-					nc, ok = wireRoundTrip(c, r, ct, model, h, k.fresh(r.Intn(k.pk.RegistrySize)), "fresh")
-				}
+				o, d := receiver()
+				nc, ok = wireRoundTrip(c, r, ct, model, h, o, d)
 				if !ok {
 					return
 				}
-				ct = nc
+				prev, prevRead, ct, ctRead = ct, ctRead, nc, true
 			}
-			for len(values) < target {
+			for fresh := 0; len(values) < target; fresh++ {
 				v := newValue()
 				i := r.Intn(k.length)
+				// the first new value of a target (where the representation changes) goes to the last position or to
+				// position 0, the second one to the other end
+				if fresh < 2 {
+					i = edges[(hi+ti+fresh)%2]
+					c.Cover(fmt.Sprintf("sweep.%s.new-value-at-position-%s", k.name, map[bool]string{true: "0", false: "last"}[i == 0]))
+				}
 				h.op(fmt.Sprintf("Set(%d,%d) [new value #%d]", i, v, len(values)))
 				ct.Set(i, v)
 				model[i] = v
@@ -226,16 +240,13 @@ func runHistory(c *vm.Ctx, r *vm.Rand, k *kind, hi int) {
 				return
 			}
 			// round trip right after the boundary, then keep mutating the reloaded container
-			o, d := usedOther()
-			if r.Bool() {
-				o, d = k.fresh(r.Intn(k.pk.RegistrySize)), "fresh"
-			}
+			o, d := receiver()
 			var nc cont
 			nc, ok = wireRoundTrip(c, r, ct, model, h, o, d)
 			if !ok {
 				return
 			}
-			ct = nc
+			prev, prevRead, ct, ctRead = ct, ctRead, nc, true
 			for j := r.Intn(6); j > 0; j-- {
 				i2, v2 := r.Intn(k.length), values[r.Intn(len(values))]
 				h.op(fmt.Sprintf("Set(%d,%d)", i2, v2))
@@ -287,12 +298,11 @@ func interopRead(c *vm.Ctx, r *vm.Rand, k *kind) {
 	wire := refwire.WritePaletted(model, k.pk)
 	h := &hist{k: k, ops: []string{fmt.Sprintf("reference-encoded container with %d distinct values, header %s", distinct(model), vm.Hex(wire[:min(8, len(wire))]))}}
 	c.Eval(vm.Hash64(wire[:min(len(wire), 96)], []byte(k.name)), true)
-	dst := k.fresh(r.Intn(k.pk.RegistrySize))
+	dst, dstDesc := k.fresh(r.Intn(k.pk.RegistrySize)), "fresh"
 	if r.Bool() {
-		for j := 0; j < 30; j++ {
-			dst.Set(r.Intn(k.length), r.Intn(k.pk.RegistrySize))
-		}
+		dst, dstDesc = usedReceiver(c, r, k)
 	}
+	h.op("ReadFrom into " + dstDesc)
 	rd := bytes.NewReader(append(append([]byte{}, wire...), 1, 2))
 	var n int64
 	var err error
@@ -306,48 +316,53 @@ func interopRead(c *vm.Ctx, r *vm.Rand, k *kind) {
 	c.Guard("interop/compare/"+k.name, h.wit, func() {
 		if fullCompare(c, dst, model, h, "interop") {
 			c.Cover("interop." + k.name)
+			c.Cover("interop-into." + dstDesc)
 		}
 	})
 }
 
-// withData: containers built from a saved (palette, data) pair must agree with the reference reading.
-func checkWithData(c *vm.Ctx, r *vm.Rand, k *kind) {
-	var sizes []int
-	if k.pk.Blocks {
-		// a saved section always carries its palette, whatever its size (the network form switches to direct ids above 256)
-		sizes = []int{1, 2, 3, 15, 16, 17, 31, 32, 33, 64, 65, 128, 129, 255, 256, 257, 300, 512, 513, 1000, 2048, 2049, 4096}
-	} else {
-		sizes = []int{1, 2, 3, 4, 5, 6, 7, 8, 9, 12, 16, 17, 40}
+// minimalWidth is the index width the game uses in the save form for a palette of np entries.
+func minimalWidth(k *kind, np int) int {
+	if np <= 1 {
+		return 0
 	}
-	np := sizes[r.Intn(len(sizes))]
-	if r.Intn(8) == 0 {
-		// the library's own save form for direct containers: no palette, registry-wide width
-		width := 15
-		if !k.pk.Blocks {
-			width = 6
-		}
-		model := make([]int, k.length)
-		for i := range model {
-			model[i] = r.Intn(k.pk.RegistrySize)
-		}
-		data := refwire.PackLongs(model, width)
-		h := &hist{k: k, ops: []string{fmt.Sprintf("WithData(no palette, %d-bit direct ids, %d longs)", width, len(data))}}
-		c.Eval(vm.HashStr("withdata-direct", k.name, fmt.Sprint(r.Uint64())), true)
-		var ct cont
-		if c.Guard("withdata/ctor/"+k.name, h.wit, func() { ct = k.withData(data, nil) }) {
-			return
-		}
-		c.Guard("withdata/compare/"+k.name, h.wit, func() {
-			for i := range model {
-				if g := ct.Get(i); g != model[i] {
-					c.Violation(fmt.Sprintf("withdata/value/%s/direct", k.name), fmt.Sprintf("%s built from saved direct ids: Get(%d)=%d, the saved data says %d", k.name, i, g, model[i]), h.wit())
-					return
-				}
+	w := 1
+	for 1<<uint(w) < np {
+		w++
+	}
+	if k.pk.Blocks && w < 4 {
+		w = 4
+	}
+	return w
+}
+
+func longsFor(width, length int) int {
+	if width == 0 {
+		return 0
+	}
+	per := 64 / width
+	return (length + per - 1) / per
+}
+
+// widerWidths lists index widths above the minimal one (up to 10 bits) whose number of longs belongs to no other width
+// that could index np entries: a data array of that many longs has one reading only.
+func widerWidths(k *kind, np int) []int {
+	var out []int
+	for w := minimalWidth(k, np) + 1; w <= 10; w++ {
+		unique := true
+		for o := 1; o <= 32; o++ {
+			if o != w && 1<<uint(o) >= np && longsFor(o, k.length) == longsFor(w, k.length) {
+				unique = false
 			}
-			c.Cover("withdata." + k.name + ".direct")
-		})
-		return
+		}
+		if unique {
+			out = append(out, w)
+		}
 	}
+	return out
+}
+
+func distinctValues(r *vm.Rand, k *kind, np int) []int {
 	pal := make([]int, 0, np)
 	seen := map[int]bool{}
 	for len(pal) < np {
@@ -357,66 +372,209 @@ func checkWithData(c *vm.Ctx, r *vm.Rand, k *kind) {
 			pal = append(pal, v)
 		}
 	}
-	width := 0
-	if np > 1 {
-		width = 1
-		for 1<<uint(width) < np {
-			width++
+	return pal
+}
+
+// usedReceiver builds a container with a past of its own: values set into a fresh one, or one built from a saved
+// (palette, data) pair (a section loaded from disk that now receives a chunk update).
+func usedReceiver(c *vm.Ctx, r *vm.Rand, k *kind) (cont, string) {
+	if r.Intn(3) == 0 {
+		nps := []int{1, 2, 16, 17, 200, 300}
+		if !k.pk.Blocks {
+			nps = []int{1, 2, 3, 5, 9}
 		}
-		if k.pk.Blocks && width < 4 {
-			width = 4
+		np := nps[r.Intn(len(nps))]
+		pal := distinctValues(r, k, np)
+		idx := make([]int, k.length)
+		for i := range idx {
+			idx[i] = r.Intn(np)
+		}
+		var o cont
+		w := func() any {
+			return map[string]any{"config": k.name, "receiver": fmt.Sprintf("WithData(palette of %d entries, %d-bit indices)", np, minimalWidth(k, np))}
+		}
+		if !c.Guard("withdata/ctor/"+k.name, w, func() { o, _ = k.withData(refwire.PackLongs(idx, minimalWidth(k, np)), pal, np) }) {
+			return o, fmt.Sprintf("withdata(%d-entries)", np)
 		}
 	}
-	idx := make([]int, k.length)
+	// a container that was used before with other data of a different width
+	o := k.fresh(r.Intn(k.pk.RegistrySize))
+	w := []int{0, 1, 3, 20, 40, 300}[r.Intn(6)]
+	if w >= k.pk.RegistrySize {
+		w = k.pk.RegistrySize / 2
+	}
+	for j := 0; j < w; j++ {
+		o.Set(r.Intn(k.length), r.Intn(k.pk.RegistrySize))
+	}
+	return o, fmt.Sprintf("used(%d-values)", w)
+}
+
+// withData: containers built from a saved (palette, data) pair must agree with the reference reading, go to the wire like
+// any other container and keep working as arrays.
+func checkWithData(c *vm.Ctx, r *vm.Rand, k *kind) {
+	var sizes []int
+	if k.pk.Blocks {
+		// a saved section always carries its palette, whatever its size (the network form switches to direct ids above 256)
+		sizes = []int{1, 2, 3, 15, 16, 17, 31, 32, 33, 64, 65, 128, 129, 255, 256, 257, 300, 512, 513, 1000, 2048, 2049, 4096}
+	} else {
+		sizes = []int{1, 2, 3, 4, 5, 6, 7, 8, 9, 12, 16, 17, 40}
+	}
+	np := sizes[r.Intn(len(sizes))]
+	var (
+		pal     []int
+		data    []uint64
+		width   int
+		variant = "minimal"
+		valSig  string
+		what    string
+	)
 	model := make([]int, k.length)
-	for i := range idx {
-		idx[i] = r.Intn(np)
-		model[i] = pal[idx[i]]
+	h := &hist{k: k}
+	if r.Intn(8) == 0 {
+		// the library's own save form for direct containers: no palette, registry-wide width
+		variant = "direct"
+		width = 15
+		if !k.pk.Blocks {
+			width = 6
+		}
+		for i := range model {
+			model[i] = r.Intn(k.pk.RegistrySize)
+		}
+		data = refwire.PackLongs(model, width)
+		h.op(fmt.Sprintf("WithData(no palette, %d-bit direct ids, %d longs)", width, len(data)))
+		c.Eval(vm.HashStr("withdata-direct", k.name, fmt.Sprint(r.Uint64())), true)
+		valSig = fmt.Sprintf("withdata/value/%s/direct", k.name)
+		what = "saved direct ids"
+	} else {
+		pal = distinctValues(r, k, np)
+		width = minimalWidth(k, np)
+		switch {
+		case np == 1 && r.Bool():
+			// a lone palette entry with an index array all the same (older saves and other writers keep one): every index is 0
+			variant = "single-entry-palette-with-data"
+			if k.pk.Blocks {
+				width = r.Range(4, 8)
+			} else {
+				width = r.Range(1, 3)
+			}
+		case np > 1 && r.Intn(6) == 0:
+			if ws := widerWidths(k, np); len(ws) > 0 {
+				variant = "wider-than-needed"
+				width = ws[r.Intn(len(ws))]
+			}
+		}
+		idx := make([]int, k.length)
+		for i := range idx {
+			idx[i] = r.Intn(np)
+			model[i] = pal[idx[i]]
+		}
+		data = refwire.PackLongs(idx, width)
+		h.op(fmt.Sprintf("WithData(palette of %d entries, %d-bit indices, %d longs; %s)", np, width, len(data), variant))
+		if np <= 16 {
+			h.op(fmt.Sprintf("palette=%v", pal))
+		}
+		c.Eval(vm.HashStr("withdata", k.name, fmt.Sprint(np, r.Uint64())), true)
+		valSig = fmt.Sprintf("withdata/value/%s/palette-bits=%d", k.name, width)
+		if variant != "minimal" {
+			valSig += "/" + variant
+		}
+		what = fmt.Sprintf("saved palette (%d entries, %d-bit indices)", np, width)
 	}
-	data := refwire.PackLongs(idx, width)
-	h := &hist{k: k, ops: []string{fmt.Sprintf("WithData(palette of %d entries, %d-bit indices, %d longs)", np, width, len(data))}}
-	c.Eval(vm.HashStr("withdata", k.name, fmt.Sprint(np, r.Uint64())), true)
-	var ct cont
-	palArg := pal
-	spare := r.Intn(3) == 0
+	capacity := len(pal)
+	spare := pal != nil && r.Intn(3) == 0
 	if spare {
-		// the caller's slice has room behind it, and the caller keeps using it afterwards
-		palArg = append(make([]int, 0, len(pal)+r.Range(1, 600)), pal...)
-		h.ops = append(h.ops, fmt.Sprintf("palette slice has capacity %d", cap(palArg)))
+		// the caller's slice has room behind it
+		capacity += r.Range(1, 600)
+		h.op(fmt.Sprintf("palette slice has capacity %d", capacity))
 	}
-	if c.Guard("withdata/ctor/"+k.name, h.wit, func() { ct = k.withData(data, palArg) }) {
+	var ct cont
+	var callerGoesOn func(r *vm.Rand)
+	if variant == "wider-than-needed" {
+		// the game would refuse such a pair (it derives the width from the palette); reading it at the only width the
+		// array length allows, or refusing it, both agree with "that same reading"
+		if v, _ := vm.Try(func() { ct, callerGoesOn = k.withData(data, pal, capacity) }); v != nil {
+			c.Cover("withdata." + k.name + ".wider-than-needed.refused")
+			return
+		}
+	} else if c.Guard("withdata/ctor/"+k.name, h.wit, func() { ct, callerGoesOn = k.withData(data, pal, capacity) }) {
 		return
 	}
-	defer func() {
-		// the container keeps working as an array: new values at random positions, compared with the model
-		c.Guard("withdata/history/"+k.name, h.wit, func() {
-			for j := 0; j < 60; j++ {
-				i, v := r.Intn(k.length), r.Intn(k.pk.RegistrySize)
-				h.ops = append(h.ops, fmt.Sprintf("Set(%d,%d)", i, v))
-				ct.Set(i, v)
-				model[i] = v
-			}
+	overwritten := r.Bool()
+	if overwritten {
+		// ... and the caller keeps using its slices afterwards
+		h.op("the caller overwrites the palette slice (up to its capacity) and the data slice it passed")
+		callerGoesOn(r)
+	}
+	compare := func(sig, when string) bool {
+		ok := false
+		c.Guard("withdata/compare/"+k.name, h.wit, func() {
 			for i := range model {
 				if g := ct.Get(i); g != model[i] {
-					c.Violation(fmt.Sprintf("withdata/history/%s", k.name), fmt.Sprintf("%s built from a saved palette of %d entries, after %d Set calls: Get(%d)=%d, model %d", k.name, np, 60, i, g, model[i]), h.wit())
+					c.Violation(sig, fmt.Sprintf("%s built from %s%s: Get(%d)=%d, expected %d", k.name, what, when, i, g, model[i]), h.wit())
 					return
 				}
 			}
-			c.Cover("withdata." + k.name + ".history-after-construction")
-			if spare {
-				c.Cover("withdata." + k.name + ".palette-slice-with-spare-capacity")
-			}
+			ok = true
 		})
-	}()
-	c.Guard("withdata/compare/"+k.name, h.wit, func() {
-		for i := range model {
-			if g := ct.Get(i); g != model[i] {
-				c.Violation(fmt.Sprintf("withdata/value/%s/palette-bits=%d", k.name, width), fmt.Sprintf("%s built from saved palette (%d entries, %d-bit indices): Get(%d)=%d, the saved data says %d", k.name, np, width, i, g, model[i]), h.wit())
-				return
-			}
-		}
+		return ok
+	}
+	if !compare(valSig, "") {
+		return
+	}
+	switch variant {
+	case "minimal":
 		c.Cover(fmt.Sprintf("withdata.%s.width%d", k.name, width))
-	})
+	case "direct":
+		c.Cover("withdata." + k.name + ".direct")
+	default:
+		c.Cover("withdata." + k.name + "." + variant)
+	}
+	if overwritten {
+		c.Cover("withdata." + k.name + ".caller-overwrote-its-slices")
+	}
+	toWire := func(cover string) bool {
+		var into cont
+		var d string
+		if r.Bool() {
+			into, d = k.fresh(r.Intn(k.pk.RegistrySize)), "fresh"
+		} else {
+			into, d = usedReceiver(c, r, k)
+		}
+		if _, ok := wireRoundTrip(c, r, ct, model, h, into, d); !ok {
+			return false
+		}
+		c.Cover("withdata." + k.name + "." + cover)
+		return true
+	}
+	// the disk-to-network path: the container is written as it came from the constructor
+	if !toWire("written-to-the-wire") {
+		return
+	}
+	// the container keeps working as an array: values of its palette and new ones at random positions
+	if c.Guard("withdata/history/"+k.name, h.wit, func() {
+		for j := 0; j < 60; j++ {
+			i, v := r.Intn(k.length), r.Intn(k.pk.RegistrySize)
+			if j%2 == 1 {
+				v = model[r.Intn(k.length)] // a value the container already holds
+				if pal != nil {
+					v = pal[r.Intn(len(pal))] // a value of the saved palette, present or not
+				}
+			}
+			h.op(fmt.Sprintf("Set(%d,%d)", i, v))
+			ct.Set(i, v)
+			model[i] = v
+		}
+	}) {
+		return
+	}
+	if !compare(fmt.Sprintf("withdata/history/%s", k.name), ", after 60 Set calls") {
+		return
+	}
+	c.Cover("withdata." + k.name + ".history-after-construction")
+	if spare {
+		c.Cover("withdata." + k.name + ".palette-slice-with-spare-capacity")
+	}
+	toWire("written-to-the-wire-after-sets")
 }
 
 func run(c *vm.Ctx) {
@@ -432,22 +590,40 @@ func run(c *vm.Ctx) {
 	c.Note("registry_sizes", map[string]int{"block_states": nStates, "biomes": nBiomes})
 	blocks := &kind{name: "blocks", length: 4096, pk: refwire.PalKind{Blocks: true, RegistrySize: nStates},
 		fresh: func(def int) cont { return blocksC{level.NewStatesPaletteContainer(4096, level.BlocksState(def))} },
-		withData: func(data []uint64, pal []int) cont {
-			p := make([]level.BlocksState, len(pal))
+		withData: func(data []uint64, pal []int, capacity int) (cont, func(r *vm.Rand)) {
+			p := make([]level.BlocksState, len(pal), max(capacity, len(pal)))
 			for i, v := range pal {
 				p[i] = level.BlocksState(v)
 			}
-			return blocksC{level.NewStatesPaletteContainerWithData(4096, data, p)}
+			ct := blocksC{level.NewStatesPaletteContainerWithData(4096, data, p)}
+			return ct, func(r *vm.Rand) {
+				p = p[:cap(p)]
+				for i := range p {
+					p[i] = level.BlocksState(r.Intn(nStates))
+				}
+				for i := range data {
+					data[i] = r.Uint64()
+				}
+			}
 		},
 		targets: []int{1, 2, 16, 17, 32, 33, 64, 65, 128, 129, 256, 257, 300}}
 	biomes := &kind{name: "biomes", length: 64, pk: refwire.PalKind{Blocks: false, RegistrySize: nBiomes},
 		fresh: func(def int) cont { return biomesC{level.NewBiomesPaletteContainer(64, level.BiomesState(def))} },
-		withData: func(data []uint64, pal []int) cont {
-			p := make([]level.BiomesState, len(pal))
+		withData: func(data []uint64, pal []int, capacity int) (cont, func(r *vm.Rand)) {
+			p := make([]level.BiomesState, len(pal), max(capacity, len(pal)))
 			for i, v := range pal {
 				p[i] = level.BiomesState(v)
 			}
-			return biomesC{level.NewBiomesPaletteContainerWithData(64, data, p)}
+			ct := biomesC{level.NewBiomesPaletteContainerWithData(64, data, p)}
+			return ct, func(r *vm.Rand) {
+				p = p[:cap(p)]
+				for i := range p {
+					p[i] = level.BiomesState(r.Intn(nBiomes))
+				}
+				for i := range data {
+					data[i] = r.Uint64()
+				}
+			}
 		},
 		targets: []int{1, 2, 3, 4, 5, 8, 9, 20, 40}}
 	r := c.Rand("hist")
